@@ -137,6 +137,13 @@ def run_history(ctx, seed):
                     if rng.random() < 0.6:
                         for n in net.nodes.values():
                             n._refuse = rng.choice([0, 0, 1, 2, 3])
+                    elif rng.random() < 0.6:
+                        # scripted fate of the next connection attempts (reconnector, pool constructor's 1st/2nd connection, replacement ...)
+                        for n in net.nodes.values():
+                            pat = [rng.random() < 0.4 for _ in range(rng.randint(2, 6))]
+                            while sum(pat) > 3:
+                                pat[pat.index(True)] = False
+                            n._pattern = pat
                     if rng.random() < 0.3:
                         pw.hold_handshake[0] = True
                     steps_log.append(('fail', c.sim_id, 'reset' if how else 'eof', [n._refuse for n in net.nodes.values()], pw.hold_handshake[0]))
